@@ -119,11 +119,22 @@ static int cmp_elem(const void * a, const void * b, void * p)
 static long visited[NE + 1];
 static int nvisited, stop_at;
 
+/* foreachmv: the visit function takes every element it is shown out of the list (it is the front
+ * element, because every element before it was taken out as well) and appends it to another list */
+static struct cstl_slist * visit_list, * move_to;
+
 static int visit(void * e, void * p)
 {
     h_priv_check(p, 2);
     if (nvisited < NE) {
         visited[nvisited] = id_of_elem(e);
+    }
+    if (move_to != NULL) {
+        if (cstl_slist_pop_front(visit_list) != e) {
+            h_stop("harness-front-is-not-the-visited-element");
+            return 99;
+        }
+        cstl_slist_push_back(move_to, e);
     }
     return nvisited++ == stop_at ? h_stop_value(stop_at) : 0;
 }
@@ -299,6 +310,17 @@ static void op(int argc, char ** argv)
         nvisited = 0;
         stop_at = (int)h_int(argv[2]);
         r = cstl_slist_foreach(l, visit, H_PRIV(2));
+        outf("%d ", r);
+        print_visited();
+    } else if (!strcmp(o, "foreachmv") && argc == 4 && l && list_of(argv[3]) && list_of(argv[3]) != l
+               && list_of(argv[3])->off == l->off) {
+        int r;
+        nvisited = 0;
+        stop_at = (int)h_int(argv[2]);
+        visit_list = l;
+        move_to = list_of(argv[3]);
+        r = cstl_slist_foreach(l, visit, H_PRIV(2));
+        move_to = NULL;
         outf("%d ", r);
         print_visited();
     } else if (!strcmp(o, "clear") && argc == 2 && l) {
